@@ -275,62 +275,6 @@ Theorem C08_invariant_init : Inv init.
 Proof. exact Inv_init. Qed.
 Print Assumptions C08_invariant_init.
 
-(* ---- Round 5: functions inherited from a used package (model coq/C08/Inherit.v) ------------------------- *)
-From C08 Require Import Inherit InheritProofs.
-(* (11) In the model of Package.DefLambda / Export / CompileList with per-package function tables (FuncInfo records
-   shared with the using packages) and per-package Lambda tables: no operation, hence no history of definitions
-   through any package, compilations and calls, ever replaces the Lambda registered for a function (home, name):
-   at most ONE Lambda per function is ever registered, so every creator hands out the same one. *)
-Theorem C08_inherit_registration_stable : forall ops st h f l,
-  lams st h f = Some l -> lams (irun_st st ops) h f = Some l.
-Proof. exact reg_stable_run. Qed.
-Print Assumptions C08_inherit_registration_stable.
-(* (12) Every defun, in ANY state and through ANY package p (the function's own package or one that inherits it),
-   leaves p with a FuncInfo whose creator hands out the Lambda registered in the function's HOME package - also
-   when the home package had no Lambda for it (a function written in go) -, and that Lambda holds the new
-   definition. *)
-Theorem C08_inherit_defun_step : forall st p f v,
-  let st' := fst (istep st (IDefun p f v)) in
-  exists i l, funcs st' p f = Some i /\ fcreate st' i = CLam l /\
-              lams st' (fpkg st' i) f = Some l /\ heap st' l = BVal v /\ fpkg st' i = home st p f.
-Proof. exact defun_hands_out_registered. Qed.
-Print Assumptions C08_inherit_defun_step.
-(* (13) A call compiled after a defun through the same package holds the Lambda registered for the function. *)
-Theorem C08_inherit_compile_after_defun : forall st p f v c,
-  let st1 := fst (istep st (IDefun p f v)) in
-  let st2 := fst (istep st1 (ICompile p c f)) in
-  exists l, callers st2 c = Some (TLam l) /\ lams st2 (home st p f) f = Some l.
-Proof. exact compile_after_defun. Qed.
-Print Assumptions C08_inherit_compile_after_defun.
-(* (14) Late binding through inheritance: a compiled caller that holds the Lambda registered for (h, f) runs,
-   after ANY history in between (that does not recompile the caller), the definition made by the next defun through
-   any package that sees the function.
-   FULL statement (not proved, hence _partial): for every history inside the guard (no caller compiled while
-   the function was still the one written in go) the model's outcomes equal the specification's (srun: each
-   caller runs the latest definition of the function its operator denoted). Missing: the simulation invariant
-   tying FuncInfo creators, Lambda tables and S's definition table together over whole histories; per run the
-   correspondence InheritCorr.icheck_case compares M with S on every generated history (self-check code 3). *)
-Theorem C08_inherit_caller_follows_latest_partial : forall st c l h f ops p v,
-  callers st c = Some (TLam l) -> lams st h f = Some l -> no_recompile c ops = true ->
-  home (irun_st st ops) p f = h ->
-  snd (istep (fst (istep (irun_st st ops) (IDefun p f v))) (ICall c)) = Some (RVal v).
-Proof. exact caller_follows_latest. Qed.
-Print Assumptions C08_inherit_caller_follows_latest_partial.
-(* the seed's history - a function written in go in the library, redefined three times through two using packages,
-   callers compiled in between - in M and S: every caller follows every redefinition *)
-Theorem C08_inherit_redefined_twice :
-  irun (iinit gof1) twice_ops = [RVal 10; RVal 100; RVal 100; RVal 1000; RVal 1000] /\
-  srun (sinit_i gof1) twice_ops = map (fun r => (r, true)) (irun (iinit gof1) twice_ops).
-Proof. exact inherit_redefined_twice. Qed.
-Print Assumptions C08_inherit_redefined_twice.
-(* known finding C08-go-caller-stale: a call compiled while the function is still the one written in go keeps
-   the go function object; the unchanged code (model and implementation) returns the go function's result after
-   the redefinition where S demands the new definition's *)
-Theorem C08_inherit_go_caller_refuted :
-  irun (iinit gof1) stale_ops = [RGo; RGo] /\
-  srun (sinit_i gof1) stale_ops = [(RGo, true); (RVal 7, false)].
-Proof. exact inherit_go_caller_refuted. Qed.
-Print Assumptions C08_inherit_go_caller_refuted.
 (* (12) Histories WITH fmakunbound.  EVERY sequence of {read a code object, Code.Compile it, evaluate it,
    (fmakunbound 'name)} - any definitions, redefinitions and un-definitions, in any order - gives, evaluation by
    evaluation and compilation by compilation, S's outcome (equal where S is binding; never a value where S has none),
@@ -465,3 +409,60 @@ Theorem C08_history_invariant_fmak : forall n ops,
   FM.HInv true (fold_left (fun m o => fst (stepM n m o)) ops minit) (fold_left (fun s o => fst (stepS n s o)) ops sinit).
 Proof. exact HInv_reachable_init. Qed.
 Print Assumptions C08_history_invariant_fmak.
+
+(* ---- Round 5: functions inherited from a used package (model coq/C08/Inherit.v) ------------------------- *)
+From C08 Require Import Inherit InheritProofs.
+(* (11) In the model of Package.DefLambda / Export / CompileList with per-package function tables (FuncInfo records
+   shared with the using packages) and per-package Lambda tables: no operation, hence no history of definitions
+   through any package, compilations and calls, ever replaces the Lambda registered for a function (home, name):
+   at most ONE Lambda per function is ever registered, so every creator hands out the same one. *)
+Theorem C08_inherit_registration_stable : forall ops st h f l,
+  lams st h f = Some l -> lams (irun_st st ops) h f = Some l.
+Proof. exact reg_stable_run. Qed.
+Print Assumptions C08_inherit_registration_stable.
+(* (12) Every defun, in ANY state and through ANY package p (the function's own package or one that inherits it),
+   leaves p with a FuncInfo whose creator hands out the Lambda registered in the function's HOME package - also
+   when the home package had no Lambda for it (a function written in go) -, and that Lambda holds the new
+   definition. *)
+Theorem C08_inherit_defun_step : forall st p f v,
+  let st' := fst (istep st (IDefun p f v)) in
+  exists i l, funcs st' p f = Some i /\ fcreate st' i = CLam l /\
+              lams st' (fpkg st' i) f = Some l /\ heap st' l = BVal v /\ fpkg st' i = home st p f.
+Proof. exact defun_hands_out_registered. Qed.
+Print Assumptions C08_inherit_defun_step.
+(* (13) A call compiled after a defun through the same package holds the Lambda registered for the function. *)
+Theorem C08_inherit_compile_after_defun : forall st p f v c,
+  let st1 := fst (istep st (IDefun p f v)) in
+  let st2 := fst (istep st1 (ICompile p c f)) in
+  exists l, callers st2 c = Some (TLam l) /\ lams st2 (home st p f) f = Some l.
+Proof. exact compile_after_defun. Qed.
+Print Assumptions C08_inherit_compile_after_defun.
+(* (14) Late binding through inheritance: a compiled caller that holds the Lambda registered for (h, f) runs,
+   after ANY history in between (that does not recompile the caller), the definition made by the next defun through
+   any package that sees the function.
+   FULL statement (not proved, hence _partial): for every history inside the guard (no caller compiled while
+   the function was still the one written in go) the model's outcomes equal the specification's (srun: each
+   caller runs the latest definition of the function its operator denoted). Missing: the simulation invariant
+   tying FuncInfo creators, Lambda tables and S's definition table together over whole histories; per run the
+   correspondence InheritCorr.icheck_case compares M with S on every generated history (self-check code 3). *)
+Theorem C08_inherit_caller_follows_latest_partial : forall st c l h f ops p v,
+  callers st c = Some (TLam l) -> lams st h f = Some l -> no_recompile c ops = true ->
+  home (irun_st st ops) p f = h ->
+  snd (istep (fst (istep (irun_st st ops) (IDefun p f v))) (ICall c)) = Some (RVal v).
+Proof. exact caller_follows_latest. Qed.
+Print Assumptions C08_inherit_caller_follows_latest_partial.
+(* the seed's history - a function written in go in the library, redefined three times through two using packages,
+   callers compiled in between - in M and S: every caller follows every redefinition *)
+Theorem C08_inherit_redefined_twice :
+  irun (iinit gof1) twice_ops = [RVal 10; RVal 100; RVal 100; RVal 1000; RVal 1000] /\
+  srun (sinit_i gof1) twice_ops = map (fun r => (r, true)) (irun (iinit gof1) twice_ops).
+Proof. exact inherit_redefined_twice. Qed.
+Print Assumptions C08_inherit_redefined_twice.
+(* known finding C08-go-caller-stale: a call compiled while the function is still the one written in go keeps
+   the go function object; the unchanged code (model and implementation) returns the go function's result after
+   the redefinition where S demands the new definition's *)
+Theorem C08_inherit_go_caller_refuted :
+  irun (iinit gof1) stale_ops = [RGo; RGo] /\
+  srun (sinit_i gof1) stale_ops = [(RGo, true); (RVal 7, false)].
+Proof. exact inherit_go_caller_refuted. Qed.
+Print Assumptions C08_inherit_go_caller_refuted.
